@@ -1,3 +1,34 @@
 (* C02 — property theorems (statements only; proofs live in Proofs*.v). *)
-From Coq Require Import ZArith QArith Qcanon List Bool.
-Require Import QV.C02.Spec QV.C02.Model.
+From Coq Require Import ZArith QArith Qcanon List Bool Permutation.
+Require Import QV.C02.Spec QV.C02.Model QV.C02.Proofs QV.C02.Proofs2.
+Import ListNotations.
+Open Scope Qc_scope.
+
+(* The windows reported by the instantiated program are exactly (as a multiset) the windows the template tree denotes:
+   every declaration once per execution of its node, at that execution's start + begin, renamed / dropped through the
+   composed measurement mappings, mirrored per execution of an enclosing reversed part.  Unbounded in tree shape,
+   nesting, repetition counts, ranges, parameters and mappings. *)
+Theorem C02_windows : forall p en mm prog,
+  create_program p en mm = Program prog -> Permutation (loop_windows prog) (denote p en mm).
+Proof. intros p en mm prog H. apply (create_program_windows p en mm prog H). Qed.
+Print Assumptions C02_windows.
+
+(* ... and the program lasts as long as the template says *)
+Theorem C02_duration : forall p en mm prog,
+  create_program p en mm = Program prog -> ldur prog = tdur p en.
+Proof. intros p en mm prog H. apply (create_program_windows p en mm prog H). Qed.
+Print Assumptions C02_duration.
+
+(* no program is produced exactly when the template plays nothing (then it denotes no window either) *)
+Theorem C02_empty : forall p en mm,
+  valid p en mm = true -> (create_program p en mm = NoProgram <-> plays p en = false).
+Proof. exact create_program_none. Qed.
+Print Assumptions C02_empty.
+
+(* Loop.reverse_inplace on ANY loop tree (windows on any node, any repetition counts): same duration, every window
+   mirrored about the total duration *)
+Theorem C02_reverse_mirrors : forall l,
+  ldur (reverse_loop l) = ldur l /\
+  Permutation (loop_windows (reverse_loop l)) (mirror (ldur l) (loop_windows l)).
+Proof. exact reverse_loop_spec. Qed.
+Print Assumptions C02_reverse_mirrors.
